@@ -33,7 +33,7 @@ StepOfImpl(s, r) ==
                  /\ ((Predict(r) = r.fresh) \/ PrintT(<<"MECH", l>>)),
           st |-> s]
 TraceLog == ndJsonDeserialize(IOEnv.TRACE)
-T == INSTANCE TraceBase WITH Log <- TraceLog, InitSt <- 0, StepOf <- StepOfImpl
+T == INSTANCE TraceBase WITH Log <- TraceLog, InitSt <- 0, StepOf <- StepOfImpl, ResyncAtNew <- FALSE
 Spec == T!Spec
 Done == T!Done
 ====
